@@ -1,4 +1,4 @@
 SPECIFICATION Spec
-CONSTANT MAXEL = 64
+CONSTANT MAXEL = 128
 POSTCONDITION Accepted
 CHECK_DEADLOCK FALSE
